@@ -16,7 +16,13 @@ Property oracles (independent of the model and of the code's own formulas):
 off-diagonal blocks of H.Ms computed from the case's channel, per-transmitter
 power, W.H.Ms against the power mask, W.E for the external interference.
 """
+import copy
+import json
 import math
+import os
+import pickle
+import subprocess
+import sys
 
 import numpy as np
 
@@ -86,7 +92,15 @@ def enc(a):
     return {'shape': list(a.shape), 'kind': 'f', 'data': [float(z) for z in flat]}
 
 
+def enc_seeded(seed, shape, cplx=True):
+    return {'shape': list(shape), 'kind': 'seeded', 'seed': int(seed), 'cplx': bool(cplx)}
+
+
 def dec(d):
+    if d['kind'] == 'seeded':       # standard gaussian entries from numpy's legacy generator: deterministic
+        rs = np.random.RandomState(d['seed'])
+        a = rs.randn(*d['shape'])
+        return (a + 1j * rs.randn(*d['shape'])) / math.sqrt(2) if d['cplx'] else a
     if d['kind'] == 'c':
         a = np.array([complex(re, im) for re, im in d['data']], dtype=complex)
     else:
@@ -298,7 +312,7 @@ class Gen:
                 return a
         raise core.Infra('no full-rank integer matrix found')
 
-    def exact_case(self, variant, shape=None, metric=None, nonneg=False, cplx=False):
+    def exact_case(self, variant, shape=None, metric=None, nonneg=False, cplx=False, two_sources=False, one_source=False):
         """a case whose values are representable in every element type (small integers)"""
         r = self.rng
         K, N = shape or self.shape(maxT=12)
@@ -319,6 +333,10 @@ class Gen:
         src = r.choice([[1], [1], [2], [1, 1]])
         if sum(src) > N:
             src = [1]
+        if two_sources:
+            src = [1, 1]
+        if one_source:
+            src = [1]
         e = self.int_matrix(T, sum(src), lo, 4, square=False)
         if cplx:
             e = e + 1j * self.int_matrix(T, sum(src), lo, 4, square=False)
@@ -333,9 +351,13 @@ class Gen:
         ints = [x for x in INT_SCALARS if x != '0d-int']
         allv = [(f, t) for f in ('iPu', 'nv', 'pe') for t in scal] + [(f, t) for f in ('K', 'ns', 'plen') for t in ints] + \
             [('Nr', t) for t in ('uint8', 'int16', 'int32', 'int64')] + [('H', t) for t in ARRAY_TYPES] + \
-            [('layout', t) for t in LAYOUTS]
+            [('layout', t) for t in LAYOUTS] + [('Nt', t) for t in ('uint8', 'int32')] + \
+            [('ctor', t) for t in ('keywords', 'attributes')] + [('derive', t) for t in ('copy', 'deepcopy', 'pickle')] + \
+            [('mform', t) for t in ('keyword', 'dict-reversed', 'dict-extra-keys', 'after-other-metric')] + \
+            [('NtE', t) for t in ('tuple', 'ndarray', 'ndarray-uint8', 'list-mixed', 'numpy-int')]
         head = [('iPu', 'int8'), ('H', 'int32'), ('H', 'float32'), ('layout', 'fortran'), ('iPu', 'float16'), ('nv', '0d'),
-                ('H', 'complex64'), ('layout', 'strided'), ('pe', 'uint8'), ('H', 'int16'), ('K', 'int8'), ('iPu', 'float32')]
+                ('H', 'complex64'), ('ctor', 'attributes'), ('mform', 'dict-reversed'), ('NtE', 'list-mixed'), ('derive', 'copy'),
+                ('iPu', 'float32')]
         rest = [x for x in allv if x not in head]
         self.rng.shuffle(rest)
         return head + rest
@@ -349,9 +371,9 @@ class Gen:
         if exact_only and f == 'H' and t in ('float32', 'complex64'):
             t = {'float32': 'int64', 'complex64': 'complex128'}[t]
         variant = r.choice(['bd', 'bd', 'white', 'enh', 'enh'])
-        if f in ('pe', 'Nr') and variant == 'bd':
+        if f in ('pe', 'Nr', 'Nt', 'NtE') and variant == 'bd':
             variant = r.choice(['white', 'enh'])
-        if f in ('ns', 'plen'):
+        if f in ('ns', 'plen', 'mform'):
             variant = 'enh'
         nonneg = cplx = False
         if f == 'H':
@@ -364,7 +386,8 @@ class Gen:
             metric = r.choice(['naive', 'fixed'])
         if f == 'plen':
             metric = 'effective_throughput'
-        case = self.exact_case(variant, metric=metric, nonneg=nonneg, cplx=cplx)
+        case = self.exact_case(variant, metric=metric, nonneg=nonneg, cplx=cplx,
+                               two_sources=(f == 'NtE' and t != 'numpy-int'), one_source=(f == 'NtE' and t == 'numpy-int'))
         case['rb'] = {f: t}
         return case
 
@@ -401,6 +424,52 @@ class Gen:
                     step['pathloss'] = (10.0 ** self.rs.uniform(-2, 0, size=(K, K + len(step['src'])))).tolist()
                 hist.append(step)
         case['history'] = hist
+        return case
+
+    BIG = [(258, 1), (260, 1), (300, 1), (257, 1), (129, 2), (150, 2)]
+
+    def index_case(self, size='small'):
+        r = self.rng
+        if size == 'small':
+            K, N = r.randint(2, 6), r.randint(1, 3)
+            users = list(range(K))
+            forms = True
+        elif size == 'huge':                      # 2^16 + 1 users: only the row bookkeeping is affordable
+            K, N = 65537, 1
+            users = [0, 256, 257, 32768, 65535, 65536]
+            forms = r.chance(0.5)
+        else:
+            K, N = r.choice(self.BIG)
+            forms = r.chance(0.5)
+            users = sorted(set([0, 1, 127, 128, 255, 256, 257, 258, K - 2, K - 1]) & set(range(K))) if forms else list(range(K))
+        case = {'variant': 'bd', 'K': K, 'N': N, 'users': users, 'forms': forms, 'iPu': 1.0, 'nv': 1.0, 'size': size}
+        if K > 256 and K < 32768 and r.chance(0.5):
+            case['rb'] = {'K': r.choice(['int16', 'uint16', 'int32', 'int64'])}
+        picks = sorted(set([0, K - 1, K // 2] + [r.below(K) for _ in range(3)]))
+        case['collections'] = [{'users': picks, 'kind': k} for k in
+                               ('list', 'tuple', 'list-mixed', 'ndarray:int64', 'ndarray:uint16', 'ndarray:int32')]
+        if K >= 3:
+            case['collections'].append({'users': [0, 2] if K < 6 else [1, 3, 5], 'kind': 'range'})
+        return case
+
+    def large_case(self, variant, shape, method='nowf', metric=None):
+        """R14: many users (or many antennas per user); the matrices are regenerated from a seed"""
+        r = self.rng
+        K, N = shape
+        T = K * N
+        for _ in range(20):
+            seed = r.randint(0, 1 << 30)
+            henc = enc_seeded(seed, (T, T))
+            if np.linalg.cond(dec(henc)) <= 2e4:
+                break
+        case = {'variant': variant, 'K': K, 'N': N, 'H': henc, 'iPu': 10.0 ** r.uniform(-1, 1), 'nv': 10.0 ** r.uniform(-3, 0),
+                'gen': 'seeded-gauss', 'scale': 1.0, 'size': 'large'}
+        if variant == 'bd':
+            case['method'] = method
+            return case
+        case.update({'E': enc_seeded(seed + 1, (T, 1)), 'src': [1], 'pe': 10.0 ** r.uniform(-1, 1)})
+        if variant == 'enh':
+            case.update({'metric': metric or 'naive', 'ns': r.randint(1, N), 'mod': ['PSK', 4], 'plen': 120})
         return case
 
     def rejected_case(self):
@@ -560,15 +629,31 @@ _LIVE = {}
 
 def apply_metric(o, case):
     m = case['metric']
+    form = case.get('rb', {}).get('mform')       # R8 / R12: argument form of the setter call
+    if form == 'after-other-metric':
+        o.set_ext_int_handling_metric('naive', {'num_streams': 1})
+        o.set_ext_int_handling_metric('effective_throughput', {'modulator': make_modulator(['BPSK', 2]), 'packet_length': 7})
     if m in ('naive', 'fixed'):
-        o.set_ext_int_handling_metric(m, {'num_streams': typed(case, 'ns', case['ns'])})
+        items = [('num_streams', typed(case, 'ns', case['ns']))]
     elif m == 'effective_throughput':
-        o.set_ext_int_handling_metric(m, {'modulator': make_modulator(case['mod']),
-                                          'packet_length': typed(case, 'plen', case['plen'])})
-    elif m == 'capacity':
-        o.set_ext_int_handling_metric(m)
+        items = [('modulator', make_modulator(case['mod'])), ('packet_length', typed(case, 'plen', case['plen']))]
     else:
-        o.set_ext_int_handling_metric(None if case.get('none_obj') else 'None')
+        items = None
+    if items is not None:
+        if form == 'dict-extra-keys':
+            items += [('zzz', 1)] + ([('packet_length', 999)] if m != 'effective_throughput' else [('num_streams', 1)])
+        if form == 'dict-reversed':
+            items = items[::-1]
+        if form == 'keyword':
+            o.set_ext_int_handling_metric(metric_func_extra_args_dict=dict(items), metric=m)
+        else:
+            o.set_ext_int_handling_metric(m, dict(items))
+    elif m == 'capacity':
+        o.set_ext_int_handling_metric(metric=m) if form == 'keyword' else o.set_ext_int_handling_metric(m)
+    else:
+        arg = None if case.get('none_obj') else 'None'
+        o.set_ext_int_handling_metric(metric=arg, metric_func_extra_args_dict=None) if form == 'keyword' else \
+            o.set_ext_int_handling_metric(arg)
 
 
 def init_channel(ch, case):
@@ -578,7 +663,20 @@ def init_channel(ch, case):
     nr = nr.astype(rb.get('Nr', int))
     src = case['src']
     full = arr_arg(case, np.hstack([dec(case['H']), dec(case['E'])]))
-    ch.init_from_channel_matrix(full, nr, nr.copy(), K, src[0] if len(src) == 1 else list(src))
+    nte = src[0] if len(src) == 1 else list(src)
+    form = rb.get('NtE')
+    if form == 'tuple':
+        nte = tuple(src)
+    elif form == 'ndarray':
+        nte = np.array(src)
+    elif form == 'ndarray-uint8':
+        nte = np.array(src, dtype=np.uint8)
+    elif form == 'list-mixed':
+        nte = [np.int16(x) if i % 2 else int(x) for i, x in enumerate(src)]
+    elif form == 'numpy-int' and len(src) == 1:
+        nte = np.int_(src[0])
+    nt = nr.copy() if rb.get('Nt') is None else nr.astype(rb['Nt'])
+    ch.init_from_channel_matrix(full, nr, nt, K, nte)
     ch.noise_var = typed(case, 'nv', case['nv']) if case.get('ch_nv', 'set') == 'set' else None
 
 
@@ -599,15 +697,31 @@ def make_modulator(spec):
 
 def fresh_solver(case):
     bd, _, _ = _impl()
+    rb = case.get('rb', {})
     K = typed(case, 'K', case['K'])
     ipu, nv = typed(case, 'iPu', case['iPu']), typed(case, 'nv', case['nv'])
-    if case['variant'] == 'bd':
-        return bd.BlockDiagonalizer(K, ipu, nv)
-    pe = typed(case, 'pe', case['pe'])
-    if case['variant'] == 'white':
-        return bd.WhiteningBD(K, ipu, nv, pe)
-    o = bd.EnhancedBD(K, ipu, nv, pe)
-    apply_metric(o, case)
+    cls = {'bd': bd.BlockDiagonalizer, 'white': bd.WhiteningBD, 'enh': bd.EnhancedBD}[case['variant']]
+    kw = {'num_users': K, 'iPu': ipu, 'noise_var': nv}
+    if case['variant'] != 'bd':
+        kw['pe'] = typed(case, 'pe', case['pe'])
+    ctor = rb.get('ctor')                         # R8: constructor path vs keyword path vs later replacement
+    if ctor == 'keywords':
+        o = cls(**dict(reversed(list(kw.items()))))
+    elif ctor == 'attributes':
+        o = cls(*[v * 2 + 1 if k != 'num_users' else v for k, v in kw.items()])
+        for k, v in kw.items():
+            setattr(o, k, v)
+    else:
+        o = cls(*kw.values())
+    if case['variant'] == 'enh':
+        apply_metric(o, case)
+    derive = rb.get('derive')                     # R13: a copy / pickle of the configured object
+    if derive:
+        parent = o
+        o = {'copy': copy.copy, 'deepcopy': copy.deepcopy, 'pickle': lambda x: pickle.loads(pickle.dumps(x))}[derive](parent)
+        parent.iPu = ipu * 7 + 3                   # the parent goes its own way afterwards
+        if case['variant'] == 'enh':
+            parent.set_ext_int_handling_metric('capacity')
     return o
 
 
@@ -878,6 +992,19 @@ def plain_twin(case):
     return t
 
 
+def rb_prefix(case):
+    f = set(case.get('rb', {}))
+    if f <= {'layout'}:
+        return 'R2'
+    if f & {'ctor', 'mform'}:
+        return 'R12' if case['rb'].get('mform') == 'dict-reversed' else 'R8'
+    if f & {'derive'}:
+        return 'R13'
+    if f & {'NtE', 'Nt'}:
+        return 'R10'
+    return 'R1'
+
+
 def rb_class(case):
     rb = case.get('rb', {})
     return ','.join('%s=%s' % (k, rb[k]) for k in sorted(rb)) or 'plain'
@@ -895,7 +1022,7 @@ def narrow_array(case):
 def o_twin(case):
     """R1 / R2: the same VALUES in another element type / memory layout give the same result as the
     float64 / complex128 C-contiguous twin, in a dtype that does not truncate"""
-    cls = ('R2:' if set(case.get('rb', {})) <= {'layout'} else 'R1:') + rb_class(case) + ':' + variant_tag(case)
+    cls = rb_prefix(case) + ':' + rb_class(case) + ':' + variant_tag(case)
     try:
         got, _, _ = run_case(case)
     except Exception as e:
@@ -1190,6 +1317,16 @@ def o_shared(case):
         for name in order:
             o = solvers[name]
             tag = ('white' if name == 'white' else 'enh-' + name) + ':after-' + how
+            if case.get('queries', True):      # R11: calls that are not setters, in between
+                pick = int(rs.randint(7))
+                st0, snap0 = solver_state(o), snapshot_channel(ch)
+                try:
+                    query_calls(o, ch, pick)
+                except Exception as e:
+                    return ('R11:query-raises:%d:%s' % (pick, type(e).__name__), 'step %d: %r' % (step, e))
+                k = same_snapshot(snap0, snapshot_channel(ch))
+                if solver_state(o) != st0 or k is not None:
+                    return ('R11:query-mutates:%d' % pick, 'step %d: query group %d changed %s' % (step, pick, k or 'the solver'))
             try:
                 ms, wk, ns = o.block_diagonalize_no_waterfilling(ch)
             except Exception as e:
@@ -1230,7 +1367,475 @@ def o_history_bd(case):
     return None
 
 
+# ================================================================ robustness classes R8 - R14
+INDEX_TYPES = {
+    'pyint': int, 'bool': bool, 'int8': np.int8, 'uint8': np.uint8, 'int16': np.int16, 'uint16': np.uint16,
+    'int32': np.int32, 'uint32': np.uint32, 'int64': np.int64, 'uint64': np.uint64, 'intp': np.intp,
+    '0d': lambda v: np.array(int(v)), '0d-uint16': lambda v: np.array(int(v), dtype=np.uint16),
+}
+
+
+def index_forms(v):
+    """every integer form that can hold the value v"""
+    out = []
+    for name, f in INDEX_TYPES.items():
+        if name == 'bool' and v > 1:
+            continue
+        if name in ('int8',) and v > 127 or name == 'uint8' and v > 255 or name == 'int16' and v > 32767:
+            continue
+        out.append((name, f(v)))
+    return out
+
+
+def marker_matrix(K, N):
+    """column c of row r holds r (and r + 0.5): the rows a slicing helper returns identify themselves"""
+    r = np.arange(K * N, dtype=float)
+    return np.stack([r, r + 0.5], axis=1)
+
+
+def expected_rows(N, users):
+    return [u * N + i for u in users for i in range(N)]
+
+
+def o_index(case):
+    """R9 / R14: `_get_sub_channel` / `_get_tilde_channel` select rows by the VALUE of the user index, for
+    every integer form of the index and any number of users"""
+    bd, _, _ = _impl()
+    K, N = case['K'], case['N']
+    o = bd.BlockDiagonalizer(typed(case, 'K', K), 1.0, 1.0)
+    m = marker_matrix(K, N)
+    size = 'K>256' if K > 256 else 'K<=256'
+    for u in case['users']:
+        forms = index_forms(u) if case.get('forms', True) else [('pyint', u)]
+        for tname, uv in forms:
+            tag = '%s:user%s:%s' % (size, '>=257' if u >= 257 else '<=256', tname)
+            for what, fn, exp in (('_get_sub_channel', o._get_sub_channel, expected_rows(N, [u])),
+                                  ('_get_tilde_channel', o._get_tilde_channel,
+                                   expected_rows(N, [x for x in range(K) if x != u]))):
+                try:
+                    got = fn(m, uv)
+                except Exception as e:
+                    return ('R9:%s:exception:%s:%s' % (what, type(e).__name__, tag), 'user %r (%s): %r' % (u, tname, e))
+                if got.shape != (len(exp), 2) or not np.array_equal(got[:, 0], np.array(exp, dtype=float)):
+                    rows = got[:, 0].astype(int).tolist() if got.ndim == 2 else []
+                    wrong = sorted(set(rows) ^ set(exp))[:6]
+                    return ('R9:%s:wrong-rows:%s' % (what, tag),
+                            'user %r (%s) of %d: %d rows instead of %d, differing rows %s' % (u, tname, K, len(rows), len(exp), wrong))
+    # iterables of users (R10: elements of different integer types, list / tuple / ndarray / range)
+    for coll in case.get('collections', []):
+        users, kind = coll['users'], coll['kind']
+        if kind == 'list-mixed':
+            forms = [index_forms(u) for u in users]
+            arg = [forms[i][(i * 5 + 3) % len(forms[i])][1] for i in range(len(users))]
+        elif kind == 'tuple':
+            arg = tuple(users)
+        elif kind.startswith('ndarray:'):
+            arg = np.array(users, dtype=kind.split(':')[1])
+        elif kind == 'range':
+            arg = range(users[0], users[-1] + 1, users[1] - users[0]) if len(users) > 1 else range(users[0], users[0] + 1)
+            users = list(arg)
+        else:
+            arg = list(users)
+        try:
+            got = o._get_sub_channel(m, arg)
+        except Exception as e:
+            return ('R10:_get_sub_channel:exception:%s:%s:%s' % (type(e).__name__, kind, size), repr(e)[:200])
+        exp = expected_rows(N, users)
+        if got.shape != (len(exp), 2) or not np.array_equal(got[:, 0], np.array(exp, dtype=float)):
+            return ('R10:_get_sub_channel:wrong-rows:%s:%s' % (kind, size), 'users %s' % (users[:8],))
+    return None
+
+
+def first_principles_ms_bad(h, K, N):
+    """an orthonormal basis of the null space of every tilde channel WITHOUT any svd of it: the columns of
+    inv(H) that belong to user k span it (H inv(H) = 1)"""
+    hinv = np.linalg.inv(h)
+    cols = []
+    for k in range(K):
+        q, _ = np.linalg.qr(hinv[:, k * N:(k + 1) * N])
+        cols.append(q)
+    return np.hstack(cols)
+
+
+def large_property_checks(case, h, ms_blocks, what, exact_power=True):
+    K, N, ipu = case['K'], case['N'], case['iPu']
+    if len(ms_blocks) != K:
+        return ('R14:shape:' + what, '%d precoder blocks for %d users' % (len(ms_blocks), K))
+    for k, m in enumerate(ms_blocks):
+        if m.shape[0] != K * N or m.ndim != 2 or m.shape[1] < 1 or m.shape[1] > N:
+            return ('R14:shape:' + what, 'user %d: precoder block %s' % (k, m.shape))
+    big = np.hstack(ms_blocks)
+    if not np.all(np.isfinite(big)):
+        return ('R14:non-finite:' + what, '')
+    eff = h @ big
+    own = 0.0
+    leak = 0.0
+    col = 0
+    worst = (0.0, -1)
+    for k, m in enumerate(ms_blocks):
+        w = m.shape[1]
+        blkc = eff[:, col:col + w]
+        o_ = nrm(blkc[k * N:(k + 1) * N]) ** 2
+        l_ = nrm(blkc) ** 2 - o_
+        own += o_
+        leak += max(l_, 0.0)
+        if l_ / max(o_, 1e-300) > worst[0]:
+            worst = (l_ / max(o_, 1e-300), k)
+        col += w
+    if not leak <= (1e-9 * tol_scale(h)) ** 2 * max(own, 1e-300) * K:
+        return ('R14:interference:%s:user%s' % (what, '>=257' if worst[1] >= 257 else '<=256'),
+                'K=%d N=%d: leaked / own energy = %.3e (worst: the streams of user %d, %.3e)' % (K, N, leak / max(own, 1e-300), worst[1], worst[0]))
+    pw = np.array([nrm(m) ** 2 for m in ms_blocks])
+    if exact_power:
+        bad = np.where(np.abs(pw - ipu) > 1e-9 * ipu)[0]
+        if bad.size:
+            return ('R14:power-not-exact:%s:user%s' % (what, '>=257' if bad[0] >= 257 else '<=256'),
+                    'user %d has power %r, iPu %r' % (int(bad[0]), float(pw[bad[0]]), ipu))
+    else:
+        if not (np.all(pw <= ipu * (1 + 1e-9)) and pw.max() >= ipu * (1 - 1e-9)):
+            return ('R14:power:' + what, 'max block power %r, iPu %r' % (float(pw.max()), ipu))
+    return None
+
+
+def o_large(case):
+    """R14: the whole method for a large number of users (or of antennas per user)"""
+    bd, _, _ = _impl()
+    K, N = case['K'], case['N']
+    h = dec(case['H'])
+    what = variant_tag(case) if case['variant'] != 'bd' else 'bd:' + case['method']
+    try:
+        outs, o, ch = run_case(case)
+    except Exception as e:
+        return ('R14:exception:%s:%s' % (type(e).__name__, what), 'K=%d N=%d: %r' % (K, N, e))
+    if case['variant'] == 'bd':
+        new_h, ms = outs
+        if ms.shape != (K * N, K * N) or new_h.shape != (K * N, K * N):
+            return ('R14:shape:' + what, 'K=%d N=%d: Ms %s newH %s' % (K, N, ms.shape, new_h.shape))
+        r = large_property_checks(case, h, [blk(ms, k, N, 1) for k in range(K)], what, exact_power=case['method'] == 'nowf')
+        if r:
+            return r
+        if not np.abs(new_h - h @ ms).max() <= 1e-9 * (np.abs(h) @ np.abs(ms)).max():
+            return ('R14:newH-not-H.Ms:' + what, '')
+        return None
+    ms, wk, ns = outs[:K], outs[K:2 * K], outs[2 * K]
+    if len(outs) != 2 * K + 1 or len(ns) != K:
+        return ('R14:shape:' + what, '%d outputs for %d users' % (len(outs), K))
+    for k in range(K):
+        if not (ms[k].shape[1] == int(ns[k]) == wk[k].shape[0]):
+            return ('R14:stream-count:' + what, 'user %d' % k)
+    r = large_property_checks(case, h, list(ms), what)
+    if r:
+        return r
+    for k in list(range(0, K, max(1, K // 7))) + [K - 1]:
+        d = wk[k] @ (blk(h, k, N, 0) @ ms[k])
+        if not np.abs(d - np.eye(d.shape[0])).max() <= 1e-6:
+            return ('R14:rx-not-inverse:%s:user%s' % (what, '>=257' if k >= 257 else '<=256'), 'user %d' % k)
+    return None
+
+
+def o_large_downstream(case):
+    """R14: everything AFTER the null-space computation for many users: the null-space basis is supplied from
+    first principles (columns of inv(H)), so the per-user loops of the power scaling, of the whitening and of the
+    stream reduction run at K = 257 ... 300 at negligible cost"""
+    bd, _, _ = _impl()
+    K, N, ipu = case['K'], case['N'], case['iPu']
+    h = dec(case['H'])
+    ms_bad = first_principles_ms_bad(h, K, N)
+    sv = []
+    for k in range(K):
+        sv.extend(np.linalg.svd(blk(h, k, N, 0) @ blk(ms_bad, k, N, 1), compute_uv=False)[::-1])
+    sigma = np.array(sv)
+    what = variant_tag(case) if case['variant'] != 'bd' else 'bd:' + case.get('method', 'wf')
+    o = fresh_solver(case)
+    o._calc_BD_matrix_no_power_scaling = lambda hh: (ms_bad.copy(), sigma.copy())
+    try:
+        if case['variant'] == 'bd':
+            for meth, fn in (('wf', o.block_diagonalize), ('nowf', o.block_diagonalize_no_waterfilling)):
+                new_h, ms = fn(h)
+                if ms.shape != (K * N, K * N):
+                    return ('R14:shape:downstream:bd:' + meth, '%s' % (ms.shape,))
+                r = large_property_checks(case, h, [blk(ms, k, N, 1) for k in range(K)], 'downstream:bd:' + meth,
+                                          exact_power=meth == 'nowf')
+                if r:
+                    return r
+                if not np.abs(new_h - h @ ms).max() <= 1e-9 * (np.abs(h) @ np.abs(ms)).max():
+                    return ('R14:newH-not-H.Ms:downstream:bd:' + meth, '')
+            return None
+        ch = make_channel(case)
+        ms, wk, ns = o.block_diagonalize_no_waterfilling(ch)
+    except Exception as e:
+        return ('R14:exception:%s:downstream:%s' % (type(e).__name__, what), 'K=%d N=%d: %r' % (K, N, e))
+    if not (len(ms) == K and len(wk) == K and len(ns) == K):
+        return ('R14:shape:downstream:' + what, 'lengths %d %d %d for %d users' % (len(ms), len(wk), len(ns), K))
+    r = large_property_checks(case, h, list(ms), 'downstream:' + what)
+    if r:
+        return r
+    for k in range(K):
+        if not (ms[k].shape[1] == int(ns[k]) == wk[k].shape[0]):
+            return ('R14:stream-count:downstream:' + what, 'user %d: Ns=%s precoder %s filter %s' % (k, ns[k], ms[k].shape, wk[k].shape))
+        d = wk[k] @ (blk(h, k, N, 0) @ ms[k])
+        if not np.abs(d - np.eye(d.shape[0])).max() <= 1e-6:
+            return ('R14:rx-not-inverse:downstream:%s:user%s' % (what, '>=257' if k >= 257 else '<=256'), 'user %d' % k)
+    return None
+
+
+def o_runs(case):
+    """the library must not raise on an input the property covers"""
+    try:
+        if case['variant'] == 'bd':
+            run_case(case, 'wf')
+            run_case(case, 'nowf')
+        else:
+            run_case(case)
+    except Exception as e:
+        return ('exception:%s:%s%s%s' % (type(e).__name__, variant_tag(case), (':' + rb_class(case)) if case.get('rb') else '',
+                                        ':long-lived' if case.get('history') else ''), repr(e)[:300])
+    return None
+
+
+def outputs_equal(a, b, tol=0.0, h=None):
+    if len(a) != len(b):
+        return 'different number of outputs'
+    for i, (x, y) in enumerate(zip(a, b)):
+        x, y = np.asarray(x), np.asarray(y)
+        if x.shape != y.shape:
+            return 'output %d: shape %s vs %s' % (i, x.shape, y.shape)
+        if tol == 0.0:
+            if not np.array_equal(x, y):
+                return 'output %d differs (max %.3e)' % (i, float(np.abs(x - y).max()))
+        elif not np.abs(x - y).max() <= tol * max(nrm(y), 1e-300):
+            return 'output %d differs by %.3e (relative)' % (i, float(np.abs(x - y).max() / max(nrm(y), 1e-300)))
+    return None
+
+
+def flat(res):
+    out = []
+    for r in res:
+        if isinstance(r, np.ndarray) and r.dtype == object:
+            out.extend(list(r))
+        else:
+            out.append(np.asarray(r))
+    return out
+
+
+def o_forms(case):
+    """R8: positional / keyword / default / explicit-default argument forms, constructor vs attribute path,
+    documented equivalent entry points; R12: insertion order of the metric's argument dictionary"""
+    bd, MU, _ = _impl()
+    K, N, ipu, nv = case['K'], case['N'], case['iPu'], case['nv']
+    h = dec(case['H'])
+    if case['variant'] == 'bd':
+        ref_o = bd.BlockDiagonalizer(K, ipu, nv)
+        ref = {'wf': flat(ref_o.block_diagonalize(h)), 'nowf': flat(ref_o.block_diagonalize_no_waterfilling(h))}
+        kw = bd.BlockDiagonalizer(noise_var=nv, iPu=ipu, num_users=K)
+        attr = bd.BlockDiagonalizer(K, ipu * 3 + 1, nv * 2 + 1)     # configured later through its attributes
+        attr.iPu, attr.noise_var = ipu, nv
+        attr2 = bd.BlockDiagonalizer(K + 1, ipu, nv)
+        attr2.num_users = K
+        forms = {
+            'constructor-keywords': lambda: (kw.block_diagonalize(h), kw.block_diagonalize_no_waterfilling(h)),
+            'method-keyword': lambda: (ref_o.block_diagonalize(mtChannel=h), ref_o.block_diagonalize_no_waterfilling(mtChannel=h)),
+            'attributes-replaced': lambda: (attr.block_diagonalize(h), attr.block_diagonalize_no_waterfilling(h)),
+            'num_users-replaced': lambda: (attr2.block_diagonalize(h), attr2.block_diagonalize_no_waterfilling(h)),
+            'module-function-positional': lambda: (bd.block_diagonalize(h, K, ipu, nv), None),
+            'module-function-keywords': lambda: (bd.block_diagonalize(noise_var=nv, iPu=ipu, num_users=K, mtChannel=h), None),
+        }
+        for name, f in forms.items():
+            try:
+                a, b = f()
+            except Exception as e:
+                return ('R8:%s:exception:%s' % (name, type(e).__name__), repr(e)[:200])
+            for meth, got in (('wf', a), ('nowf', b)):
+                if got is None:
+                    continue
+                why = outputs_equal(flat(got), ref[meth])
+                if why:
+                    return ('R8:%s:differs:%s' % (name, meth), why)
+        w_ref = np.linalg.pinv(ref['wf'][0])
+        for name, f in (('module', lambda: bd.calc_receive_filter(ref['wf'][0])), ('module-keyword', lambda: bd.calc_receive_filter(newH=ref['wf'][0])),
+                        ('static', lambda: bd.BlockDiagonalizer.calc_receive_filter(ref['wf'][0])),
+                        ('instance-keyword', lambda: ref_o.calc_receive_filter(newH=ref['wf'][0]))):
+            try:
+                why = outputs_equal([f()], [w_ref])
+            except Exception as e:
+                return ('R8:calc_receive_filter:%s:exception:%s' % (name, type(e).__name__), repr(e)[:200])
+            if why:
+                return ('R8:calc_receive_filter:%s:differs' % name, why)
+        return None
+    pe = case['pe']
+    cls = bd.WhiteningBD if case['variant'] == 'white' else bd.EnhancedBD
+    metric = case.get('metric')
+
+    def args_for(order=0, extra=False):
+        if metric in ('naive', 'fixed'):
+            items = [('num_streams', case['ns'])]
+            if extra:
+                items += [('packet_length', 999), ('zzz', 1)]
+        elif metric == 'effective_throughput':
+            items = [('modulator', make_modulator(case['mod'])), ('packet_length', case['plen'])]
+            if extra:
+                items += [('num_streams', 1)]
+        else:
+            return None
+        if order:
+            items = items[::-1]
+        return dict(items)
+
+    def configure(o, form):
+        if cls is bd.WhiteningBD:
+            return
+        if metric == 'None':
+            {'default': lambda: None, 'none-object': lambda: o.set_ext_int_handling_metric(None),
+             'none-string': lambda: o.set_ext_int_handling_metric('None'),
+             'keyword': lambda: o.set_ext_int_handling_metric(metric=None, metric_func_extra_args_dict=None),
+             'empty-dict': lambda: o.set_ext_int_handling_metric('None', {}),
+             'after-other-metric': lambda: (o.set_ext_int_handling_metric('capacity'), o.set_ext_int_handling_metric(None))}[form]()
+        else:
+            a = args_for(order=1 if form == 'dict-reversed' else 0, extra=form == 'dict-extra-keys')
+            if form == 'keyword':
+                o.set_ext_int_handling_metric(metric_func_extra_args_dict=a, metric=metric)
+            elif form == 'after-other-metric':
+                o.set_ext_int_handling_metric('naive', {'num_streams': 1})
+                o.set_ext_int_handling_metric('effective_throughput', {'modulator': make_modulator(['BPSK', 2]), 'packet_length': 7})
+                o.set_ext_int_handling_metric(metric, a)
+            elif a is None:
+                o.set_ext_int_handling_metric(metric) if form != 'explicit-none-args' else o.set_ext_int_handling_metric(metric, None)
+            else:
+                o.set_ext_int_handling_metric(metric, a)
+
+    ch = make_channel(case)
+    ref_o = cls(K, ipu, nv, pe)
+    configure(ref_o, 'default' if metric == 'None' else 'positional')
+    ref = flat(ref_o.block_diagonalize_no_waterfilling(ch))
+    mforms = ['default', 'none-object', 'none-string', 'keyword', 'empty-dict', 'after-other-metric'] if metric == 'None' else \
+        ['positional', 'keyword', 'dict-reversed', 'dict-extra-keys', 'after-other-metric', 'explicit-none-args']
+    if cls is bd.WhiteningBD:
+        mforms = ['positional']
+    for cform in ('positional', 'keywords', 'attributes-replaced'):
+        for mform in mforms:
+            if cform == 'positional' and mform in ('default', 'positional'):
+                continue
+            try:
+                if cform == 'keywords':
+                    o = cls(pe=pe, noise_var=nv, iPu=ipu, num_users=K)
+                elif cform == 'attributes-replaced':
+                    o = cls(K, ipu * 2 + 1, nv * 3 + 1, pe * 5 + 1)
+                    o.iPu, o.noise_var, o.pe = ipu, nv, pe
+                else:
+                    o = cls(K, ipu, nv, pe)
+                configure(o, mform)
+                got = flat(o.block_diagonalize_no_waterfilling(mu_channel=ch) if mform == 'keyword'
+                           else o.block_diagonalize_no_waterfilling(ch))
+            except Exception as e:
+                return ('R8:%s:%s:exception:%s:%s' % (cform, mform, type(e).__name__, variant_tag(case)), repr(e)[:200])
+            why = outputs_equal(got, ref)
+            if why:
+                cl = 'R12:metric-dict-order' if mform == 'dict-reversed' else 'R8:%s:%s' % (cform, mform)
+                return ('%s:differs:%s' % (cl, variant_tag(case)), why)
+    # documented equivalences
+    if cls is bd.EnhancedBD and metric == 'None':
+        plain = bd.BlockDiagonalizer(K, ipu, nv).block_diagonalize_no_waterfilling(np.array(ch.big_H_no_ext_int))
+        why = outputs_equal([np.hstack(list(ref[:K]))], [plain[1]])
+        if why:
+            return ('R8:equivalent:EnhancedBD[None]-vs-BlockDiagonalizer', why)
+        o = bd.EnhancedBD(K, ipu, nv, pe)
+        o.set_ext_int_handling_metric('naive', {'num_streams': N})
+        why = outputs_equal(flat(o.block_diagonalize_no_waterfilling(ch)), ref, tol=1e-9 * tol_scale(h))
+        if why:
+            return ('R8:equivalent:naive[num_streams=N]-vs-None', why)
+    return None
+
+
+def query_calls(o, ch, rng_int):
+    """R11: calls that are not setters"""
+    bd, _, _ = _impl()
+    pick = rng_int % 7
+    if pick == 0:
+        repr(o), str(o), getattr(o, 'metric_name', None)
+    elif pick == 1 and ch is not None:
+        o.calc_whitening_matrices(ch)
+    elif pick == 2 and ch is not None:
+        ch.calc_cov_matrix_extint_plus_noise(o.pe)
+        ch.calc_cov_matrix_extint_without_noise(pe=o.pe)
+        ch.big_H_no_ext_int
+    elif pick == 3 and ch is not None:
+        h = np.array(ch.big_H_no_ext_int)
+        o._get_sub_channel(h, 0)
+        o._get_tilde_channel(h, o.num_users - 1)
+        o.calc_receive_filter(h)
+    elif pick == 4 and ch is not None:
+        h = np.array(ch.big_H_no_ext_int)
+        bd.BlockDiagonalizer.block_diagonalize(o, h)           # the inherited water-filling method
+        o._calc_BD_matrix_no_power_scaling(h)
+    elif pick == 5 and ch is not None:
+        n = int(ch.Nr[0])
+        p = np.eye(n)[:, :1]
+        bd.EnhancedBD.calc_receive_filter_user_k(np.eye(n)[:, :1] + 0j, p)
+        bd.EnhancedBD.calc_receive_filter_user_k(np.eye(n) + 0j)
+        bd.EnhancedBD._calc_linear_SINRs(np.eye(n) + 0j, np.eye(n) + 0j, np.eye(n) + 0j)
+    elif ch is not None:
+        ch.get_Hk_without_ext_int(0)
+        ch.K, ch.Nr, ch.Nt, ch.extIntK, ch.noise_var
+
+
+def o_derived(case):
+    """R13: copies / pickles of a configured solver behave like the original when they were taken and are
+    independent of it afterwards (both directions)"""
+    import copy
+    import pickle
+    bd, _, _ = _impl()
+    o = fresh_solver(case)
+    ch = make_channel(case) if case['variant'] != 'bd' else None
+    h = dec(case['H'])
+
+    def run(x):
+        if case['variant'] == 'bd':
+            return flat(x.block_diagonalize(h)) + flat(x.block_diagonalize_no_waterfilling(h))
+        return flat(x.block_diagonalize_no_waterfilling(ch))
+
+    ref = run(o)
+    st = solver_state(o)
+    for how, mk in (('copy', copy.copy), ('deepcopy', copy.deepcopy), ('pickle', lambda x: pickle.loads(pickle.dumps(x)))):
+        tag = '%s:%s' % (how, variant_tag(case))
+        try:
+            child = mk(o)
+            got = run(child)
+        except Exception as e:
+            return ('R13:%s:exception:%s' % (tag, type(e).__name__), repr(e)[:200])
+        if solver_state(child) != st:
+            return ('R13:%s:child-state-differs' % tag, '%s vs %s' % (solver_state(child), st))
+        why = outputs_equal(got, ref)
+        if why:
+            return ('R13:%s:child-result-differs' % tag, why)
+        # mutate the child: the parent must not notice
+        child.iPu = case['iPu'] * 4 + 1
+        child.noise_var = case['nv'] * 2 + 1
+        if hasattr(child, 'set_ext_int_handling_metric'):
+            child.set_ext_int_handling_metric('naive', {'num_streams': 1})
+            child._metric_func_extra_args['num_streams'] = 1
+        if solver_state(o) != st or outputs_equal(run(o), ref):
+            return ('R13:%s:parent-changed-by-child' % tag, '%s vs %s' % (solver_state(o), st))
+        # mutate the parent: an earlier child must not notice
+        child2 = mk(o)
+        o.iPu = case['iPu'] * 3 + 2
+        if hasattr(o, 'set_ext_int_handling_metric'):
+            o.set_ext_int_handling_metric('capacity')
+        why = outputs_equal(run(child2), ref)
+        o.iPu = case['iPu']
+        if hasattr(o, 'set_ext_int_handling_metric'):
+            apply_metric(o, case)
+        if why or solver_state(child2) != st:
+            return ('R13:%s:child-changed-by-parent' % tag, str(why))
+    return None
+
+
 ORACLES = {
+    'robust.index': o_index,
+    'robust.large': o_large,
+    'robust.large-downstream': o_large_downstream,
+    'robust.runs': o_runs,
+    'robust.forms': o_forms,
+    'robust.derived': o_derived,
     'robust.twin': o_twin,
     'robust.immutable': o_immutable,
     'robust.rejected': o_rejected,
@@ -1266,7 +1871,7 @@ def run_oracle(ctx, call, case, key=None, nontrivial=True):
         cls = r[0]
         if not call.startswith('robust.') and not cls.startswith('exception:'):
             if case.get('rb'):
-                cls += ':' + ('R2' if set(case['rb']) <= {'layout'} else 'R1') + ':' + rb_class(case)
+                cls += ':' + rb_prefix(case) + ':' + rb_class(case)
             if case.get('history'):
                 cls += ':R7:long-lived'
             if case.get('pe') == 0 and case['variant'] != 'bd':
@@ -1950,6 +2555,7 @@ def correspondence(ctx, n_bd, n_white, n_enh):
     g = Gen(ctx.rng.fork('corr'))
     drv = core.Driver(DRIVER)
     corr_metric_histories(ctx, drv, ctx.rng.fork('metric-histories'), 40 if ctx.tier == 'quick' else 400)
+    corr_index(ctx, drv)
     jobs = []
     for i in range(n_bd):
         jobs.append(('bd', g.bd_case(), i))
@@ -1985,6 +2591,7 @@ def correspondence(ctx, n_bd, n_white, n_enh):
                 del L.judges[n_lines:]
                 ctx.branch('corr:exception')
                 ctx.tie_broken('correspondence', 'exception:' + kind, '%s: %s' % (type(e).__name__, str(e)[:300]), case)
+                run_oracle(ctx, 'robust.runs', case)     # an exception of the LIBRARY on this input is a failing input
         first, second = materialise(L)
         first.run(drv, ctx)
         L2 = Lines()
@@ -2084,6 +2691,14 @@ def robust_branch(ctx, kind, case, where):
             elif f == 'H':
                 ctx.branch('%s:R1:array:%s' % (where, 'narrow-float' if t in ('float32', 'complex64') else
                                                'integer' if np.dtype(t).kind in 'iu' else 'float64'))
+            elif f in ('NtE', 'Nt'):
+                ctx.branch('%s:R10:count-collections' % where)
+            elif f == 'ctor':
+                ctx.branch('%s:R8:constructor-forms' % where)
+            elif f == 'mform':
+                ctx.branch('%s:%s' % (where, 'R12:dict-order' if t == 'dict-reversed' else 'R8:setter-forms'))
+            elif f == 'derive':
+                ctx.branch('%s:R13:derived-objects' % where)
             elif t in ('0d', '0d-int'):
                 ctx.branch('%s:R2:0d-scalar' % where)
             else:
@@ -2123,6 +2738,140 @@ def robust_oracles(ctx, n):
         ctx.branch('oracle:R7:shared-channel')
 
 
+LARGE_PLAN = [('bd', 'nowf', None), ('bd', 'wf', None), ('white', None, None), ('enh', None, 'naive'), ('enh', None, 'fixed'),
+              ('enh', None, 'None'), ('enh', None, 'capacity'), ('enh', None, 'effective_throughput')]
+
+
+def run_isolated(ctx, pairs, timeout=1500):
+    """run (oracle, case) pairs in a child interpreter with single-threaded BLAS: the K = 260 ... 300 cases do a few
+    hundred LAPACK calls on 300 x 300 matrices, which takes seconds with one thread but is unpredictable when 16
+    BLAS threads compete with other processes"""
+    if not pairs:
+        return
+    path = os.path.join(ctx.scratch, 'c09_isolated_%d.json' % ctx.rng.below(1 << 30))
+    with open(path, 'w') as f:
+        json.dump(pairs, f, default=core.json_default)
+    env = dict(os.environ, OPENBLAS_NUM_THREADS='1', OMP_NUM_THREADS='1', MKL_NUM_THREADS='1', PYPHYSIM_REPO=core.REPO)
+    try:
+        p = subprocess.run([sys.executable, '-m', 'harness.props.c09', path], cwd=core.VERIF, env=env, stdout=subprocess.PIPE,
+                           stderr=subprocess.PIPE, text=True, timeout=timeout)
+    except subprocess.TimeoutExpired:
+        raise core.Infra('isolated oracle run timed out')
+    lines = [ln for ln in p.stdout.split('\n') if ln.startswith('RESULTS ')]
+    if p.returncode != 0 or not lines:
+        raise core.Infra('isolated oracle run failed: rc=%s stderr=%s' % (p.returncode, p.stderr[-400:]))
+    results = json.loads(lines[-1][8:])
+    for (call, case), r in zip(pairs, results):
+        ctx.count((call, core.hashlib.sha1(repr(case).encode()).hexdigest()), True)
+        if r is not None:
+            ctx.fail(call, r[0], case, r[1])
+            ctx.branch('oracle-fail:' + call)
+        else:
+            ctx.branch('oracle-ok:' + call)
+
+
+def isolated_main(path):
+    core.import_repo()
+    with open(path) as f:
+        pairs = json.load(f)
+    out = []
+    for call, case in pairs:
+        try:
+            r = ORACLES[call](case)
+        except Exception as e:
+            r = ('exception:%s:%s' % (type(e).__name__, variant_tag(case) if 'variant' in case else call), repr(e)[:300])
+        out.append(None if r is None else [r[0], r[1]])
+    print('RESULTS ' + json.dumps(out))
+
+
+def count_oracles(ctx):
+    """R9 / R14 (+ R8, R13 oracles that need no large matrices)"""
+    g = Gen(ctx.rng.fork('counts'))
+    quick = ctx.tier == 'quick'
+    for size in ['small'] * (4 if quick else 30) + ['big'] * (2 if quick else 12) + ['huge'] * (1 if quick else 3):
+        case = g.index_case(size)
+        run_oracle(ctx, 'robust.index', case)
+        ctx.branch('oracle:R9:index-forms:' + size)
+        if case['K'] > 256:
+            ctx.branch('oracle:R14:users>256:row-bookkeeping')
+    for i in range(6 if quick else 40):
+        case = g.bd_case() if i % 3 == 0 else g.ext_case(metric=METRICS[i % len(METRICS)])
+        case.pop('cov_scale', None)
+        run_oracle(ctx, 'robust.forms', case)
+        ctx.branch('oracle:R8:argument-forms')
+        run_oracle(ctx, 'robust.derived', case)
+        ctx.branch('oracle:R13:derived-objects')
+    # many users: everything after the null spaces (cheap), and one / a few complete methods
+    pairs = []
+    off = ctx.seed + (0 if quick else 3)
+    for i in range(2 if quick else 10):
+        variant, method, metric = LARGE_PLAN[(off + i) % len(LARGE_PLAN)]
+        shape = Gen.BIG[(off + i) % len(Gen.BIG)]
+        case = g.large_case(variant, shape, method or 'nowf', metric)
+        pairs.append(('robust.large-downstream', case))
+        ctx.branch('oracle:R14:users>256:downstream')
+    for i in range(1 if quick else 6):
+        variant, method, metric = LARGE_PLAN[(off + 5 * i + 1) % len(LARGE_PLAN)] if not quick else LARGE_PLAN[ctx.seed % len(LARGE_PLAN)]
+        shape = [(258, 1), (260, 1), (300, 1), (257, 1)][(ctx.seed + i) % 4]
+        pairs.append(('robust.large', g.large_case(variant, shape, method or 'nowf', metric)))
+        ctx.branch('oracle:R14:users>256:whole-method')
+    # many antennas per user (indices above 256 inside one user's block)
+    pairs.append(('robust.large', g.large_case(['bd', 'white', 'enh'][ctx.seed % 3], (2, 257 + ctx.seed % 2),
+                                               ['nowf', 'wf'][ctx.seed % 2], 'fixed')))
+    ctx.branch('oracle:R14:antennas>256')
+    run_isolated(ctx, pairs)
+
+
+def corr_index(ctx, drv):
+    """R9 / R14: the rows `_get_tilde_channel` / `_get_sub_channel` select (read off a marker matrix) against the
+    model's `tildeIdx` / `subIdx`, up to 2^16 + 1 users and for every integer form of the index"""
+    bd, _, _ = _impl()
+    g = Gen(ctx.rng.fork('corr-index'))
+    quick = ctx.tier == 'quick'
+    lines, judges = [], []
+    for size in ['small'] * 3 + ['big'] * (2 if quick else 6) + ['huge']:
+        case = g.index_case(size)
+        K, N = case['K'], case['N']
+        o = bd.BlockDiagonalizer(typed(case, 'K', K), 1.0, 1.0)
+        m = marker_matrix(K, N)
+        users = case['users'] if size != 'big' or quick else list(range(K))
+        for u in users:
+            forms = index_forms(u)
+            uv = forms[(u * 7 + 1) % len(forms)][1] if case['forms'] else u
+            try:
+                got_t = o._get_tilde_channel(m, uv)[:, 0].astype(int).tolist()
+                got_s = o._get_sub_channel(m, uv)[:, 0].astype(int).tolist()
+            except Exception as e:
+                ctx.tie_broken('correspondence', 'exception:_get_tilde_channel', '%s: %s' % (type(e).__name__, e), case)
+                run_oracle(ctx, 'robust.index', case)
+                break
+            lines.append('tidx %d %d %d' % (K, N, u))
+            judges.append(('_get_tilde_channel.rows', {'K': K, 'N': N, 'user': u, 'index_type': type(uv).__name__}, got_t))
+            lines.append('sidx %d %d %d' % (K, N, u))
+            judges.append(('_get_sub_channel.rows', {'K': K, 'N': N, 'user': u, 'index_type': type(uv).__name__}, got_s))
+        coll = case['collections'][0]['users']
+        try:
+            got = o._get_sub_channel(m, np.array(coll))[:, 0].astype(int).tolist()
+            lines.append('sidx %d %d %s' % (K, N, ','.join(str(x) for x in coll)))
+            judges.append(('_get_sub_channel.rows', {'K': K, 'N': N, 'users': coll}, got))
+        except Exception as e:
+            ctx.tie_broken('correspondence', 'exception:_get_sub_channel', '%s: %s' % (type(e).__name__, e), case)
+        ctx.branch('corr:R9:index-forms:' + size)
+        if K > 256:
+            ctx.branch('corr:R14:users>256:row-bookkeeping')
+    out = drv.ask(lines)
+    for reply, (name, case, got) in zip(out, judges):
+        ctx.corr(name, case, hashlib_rows(got), hashlib_rows([int(x) for x in reply.split(',')] if reply and reply[0].isdigit() else reply),
+                 key=(name, case.get('K'), case.get('N'), case.get('user', -1), tuple(case.get('users', []))))
+
+
+def hashlib_rows(rows):
+    if not isinstance(rows, list):
+        return str(rows)
+    return '%d rows, first %s last %s, sha1 %s' % (len(rows), rows[:3], rows[-3:],
+                                                   core.hashlib.sha1(','.join(map(str, rows)).encode()).hexdigest()[:12])
+
+
 ROBUST_BRANCHES = [
     'oracle:R1:scalar:narrow-int', 'oracle:R1:scalar:float16/32', 'oracle:R1:array:integer', 'oracle:R1:array:narrow-float',
     'oracle:R2:layout', 'oracle:R2:0d-scalar', 'oracle:R3:immutability', 'oracle:R4:rejected-calls', 'oracle:R5:iPu=0',
@@ -2131,6 +2880,12 @@ ROBUST_BRANCHES = [
     'corr:R1:scalar:narrow-int', 'corr:R1:array:integer', 'corr:R2:layout', 'corr:R5:zero-pe', 'corr:R5:zero-noise',
     'corr:R7:long-lived:bd', 'corr:R7:long-lived:white', 'corr:R7:long-lived:enh', 'corr:metric-setter-histories',
     'scale:1e-12', 'scale:1e+12',
+    # R8 - R14
+    'oracle:R8:argument-forms', 'oracle:R8:constructor-forms', 'oracle:R9:index-forms:small', 'oracle:R9:index-forms:big',
+    'oracle:R9:index-forms:huge', 'oracle:R10:count-collections', 'oracle:R12:dict-order', 'oracle:R13:derived-objects',
+    'oracle:R14:users>256:row-bookkeeping', 'oracle:R14:users>256:downstream', 'oracle:R14:users>256:whole-method',
+    'oracle:R14:antennas>256', 'corr:R8:constructor-forms', 'corr:R9:index-forms:big', 'corr:R9:index-forms:huge',
+    'corr:R10:count-collections', 'corr:R12:dict-order', 'corr:R13:derived-objects', 'corr:R14:users>256:row-bookkeeping',
 ]
 
 
@@ -2157,8 +2912,20 @@ def check(ctx):
             raise
         ctx.notes.append('correspondence skipped: %s' % e)
         ctx.required_branches = []
-    oracles(ctx, 60 * scale, 100 * scale)
-    robust_oracles(ctx, 48 * (1 if quick else 8))
+    except Exception as e:      # (on a changed tree) never exit 2: record, then let the oracles find the input
+        import traceback
+        ctx.tie_broken('correspondence', 'harness-exception:correspondence', traceback.format_exc()[-1500:])
+        ctx.required_branches = []
+    for stage in (lambda: oracles(ctx, 60 * scale, 100 * scale), lambda: robust_oracles(ctx, 48 * (1 if quick else 8)),
+                  lambda: count_oracles(ctx)):
+        try:
+            stage()
+        except core.Infra:
+            raise
+        except Exception as e:
+            import traceback
+            ctx.tie_broken('correspondence', 'harness-exception:oracles', traceback.format_exc()[-1500:])
+            ctx.required_branches = []
 
 
 def search(ctx):
@@ -2169,3 +2936,8 @@ def search(ctx):
         robust_oracles(ctx, 100)
         if len(ctx.failures) > before:
             return
+
+
+if __name__ == '__main__':
+    from harness.props import c09 as _self      # (the functions must live in the importable module)
+    _self.isolated_main(sys.argv[1])
